@@ -65,6 +65,27 @@ def run(ctx):
                 args = [".", "-mindepth", "1", flag, ref, "-printf", "%f\\0"]
                 ml = ["num newer %d %d" % (ts[f][x], ts[ref][y]) for f in names]
                 cases.append((args, None, ml, flag))
+        # references that are symbolic links (with timestamps of their own, one of them dangling): -newerXY examines the reference
+        # as -newer does - the link itself under -P, what it points to under -H/-L unless that cannot be resolved
+        rd = d + "-refs"
+        os.mkdir(rd)
+        lnk, dang = os.path.join(rd, "lnk"), os.path.join(rd, "dang")
+        os.symlink(os.path.join(d, "f2"), lnk)
+        os.symlink("nowhere", dang)
+        os.utime(lnk, ns=(base + 7000 * NS + 3, base + 4000 * NS), follow_symlinks=False)
+        os.utime(dang, ns=(base + 2000 * NS + 7, base + 2500 * NS), follow_symlinks=False)
+        for mode in "PHL":
+            for refp in (lnk, dang):
+                rec = os.lstat(refp)
+                if mode != "P" and os.path.exists(refp):
+                    rec = os.stat(refp)
+                rts = {"a": rec.st_atime_ns, "m": rec.st_mtime_ns, "c": rec.st_ctime_ns}
+                forms = [("-newer", "m", "m"), ("-anewer", "a", "m"), ("-cnewer", "c", "m")] + [("-newer%s%s" % (x, y), x, y) for x in "am" for y in "mc"]
+                # (Y = a is left out: resolving a link updates its access time under relatime, so the reference would move)
+                for flag, x, y in forms:
+                    args = ["-" + mode, ".", "-mindepth", "1", flag, refp, "-printf", "%f\\0"]
+                    ml = ["num newer %d %d" % (ts[f][x], rts[y]) for f in names]
+                    cases.append((args, None, ml, "link-reference"))
         il = ["find %s %s %s" % ("-" if now is None else "%d.%09d" % (now // NS, now % NS), fw.hexs(d.encode()),
                                  xc.hexlist([a.encode() for a in args])) for args, now, _, _ in cases]
         impl = xc.run_impl(il)
@@ -89,6 +110,41 @@ def run(ctx):
                            "model_and_spec_matched": sorted(x.decode() for x in exp),
                            "explain": "C15 theorems fix the model's verdict (whole periods; strict comparison of the entry's X with the reference's Y)",
                            "total_disagreements": len(bad)})
+        huge_age(ctx)
+    finally:
+        import shutil
+        shutil.rmtree(d, ignore_errors=True)
+        shutil.rmtree(d + "-refs", ignore_errors=True)
+
+
+def huge_age(ctx):
+    """an age beyond i64::MAX seconds is still an age (more than any N days or minutes), not a time in the future.  Needs a file
+    system that stores 64-bit timestamps (tmpfs at /dev/shm); skipped where there is none."""
+    import subprocess
+    try:
+        d = tempfile.mkdtemp(prefix="c15-", dir="/dev/shm")
+    except OSError:
+        ctx.notes.append("huge_age: /dev/shm not usable, scenario skipped")
+        return
+    try:
+        f = os.path.join(d, "f")
+        open(f, "wb").close()
+        t = (-2 ** 63 + 10) * NS
+        try:
+            os.utime(f, ns=(t, t))
+        except (OSError, OverflowError):
+            ctx.notes.append("huge_age: the file system does not store such timestamps, scenario skipped")
+            return
+        if os.stat(f).st_mtime_ns != t:
+            ctx.notes.append("huge_age: the file system clamps timestamps, scenario skipped")
+            return
+        for test, want in ((["-mtime", "+0"], True), (["-mmin", "+0"], True), (["-mmin", "-5"], False), (["-mtime", "-1"], False),
+                           (["-atime", "+1000"], True)):
+            p = subprocess.run([fw.FIND, "f"] + test, stdout=subprocess.PIPE, stderr=subprocess.DEVNULL, cwd=d, env=xc.ENV, timeout=60)
+            ctx.count(("huge-age", tuple(test)), True, "huge-age")
+            if (p.stdout == b"f\n") != want or p.returncode != 0:
+                ctx.violation("find f %s on a file older than 2^63 seconds: %s, expected %s" % (" ".join(test), "matched" if p.stdout else "no match", "a match" if want else "no match"),
+                              {"property": "C15", "kind": "huge-age", "test": test, "matched": bool(p.stdout), "expected": want, "mtime_ns": t})
     finally:
         import shutil
         shutil.rmtree(d, ignore_errors=True)
